@@ -181,6 +181,37 @@ func RunC14(r *sim.Run) {
 		})
 	}
 
+	// a re-application of the cluster with an unchanged server list (informer
+	// resync, an edit of an unrelated field): the ready set stays what it was
+	syncLeft, resyncs := 0, 0
+	hasSync := t.Draw(2) == 1
+	if hasSync {
+		sc.Go("resync", func() {
+			for {
+				sc.Boundary()
+				if done {
+					return
+				}
+				if syncLeft <= 0 || remaining <= 0 || t.Draw(3) != 0 {
+					continue
+				}
+				syncLeft--
+				v := cl.DeepCopy()
+				switch t.Draw(3) {
+				case 1:
+					v.Spec.Logging.Mode = proxyv1alpha1.LogOff
+				case 2:
+					v.Labels = map[string]string{"touched": fmt.Sprint(resyncs)}
+				}
+				if err := info.Sync(v); err != nil {
+					failMsg = "Sync: " + err.Error()
+					return
+				}
+				resyncs++
+			}
+		})
+	}
+
 	readyList := func() []string {
 		var l []string
 		for _, e := range subset {
@@ -298,8 +329,11 @@ func RunC14(r *sim.Run) {
 		if nNoise > 0 {
 			noiseLeft = t.Range(0, perStretch[stretch])
 		}
+		if hasSync {
+			syncLeft = t.Range(1, 3)
+		}
 	}
-	why := sc.RunRounds(4000, style, atQuiet)
+	why := sc.RunRounds(12000, style, atQuiet)
 	for _, th := range sc.Threads() {
 		if th.Panic != nil {
 			r.Violate("panic", th.PanicTop, "thread %s panicked: %v", th.Name, th.Panic)
@@ -332,9 +366,10 @@ func RunC14(r *sim.Run) {
 	r.ProbeN("picks", len(picks))
 	r.ProbeN("noise_picks", noisePicks)
 	r.ProbeN("yields", sc.Yields)
+	r.ProbeN("resyncs_with_unchanged_servers", resyncs)
 	if nPick > 1 {
 		r.Probe("concurrent_pickers")
 	}
 	r.Nontrivial = len(picks) >= 4 && k >= 2
-	r.Sample = map[string]interface{}{"endpoints": k, "explicit_subset": explicit, "subset": subset, "pickers": nPick, "noise_pickers": nNoise, "picks": strings.Join(seq, " ")}
+	r.Sample = map[string]interface{}{"endpoints": k, "explicit_subset": explicit, "subset": subset, "pickers": nPick, "noise_pickers": nNoise, "resyncs": resyncs, "picks": strings.Join(seq, " ")}
 }
